@@ -20,6 +20,7 @@ fn with_prop(id: &str, f: &mut dyn FnMut(&dyn Runner)) -> bool {
     use props::hist_props::{HistProp, Which};
     match id {
         "C01" => f(&props::c01::C01),
+        "C02" => f(&props::c02::C02),
         "C03" => f(&HistProp(Which::C03)),
         "C04" => f(&HistProp(Which::C04)),
         "C05" => f(&props::c05::C05),
